@@ -1311,11 +1311,15 @@ class Container:
             entries = numpy.flatnonzero(a[row])
             if len(entries) == 1 and entries[0] < n:
                 xs[entries[0]] = b[row] / a[row][entries[0]]
-        # ... and a trace solute whose concentration is stated has that share of what the rest of the mixture measures
-        # (the same cancellation hits it when the total is stated by mass or moles)
+        # ... and a dilute solute whose concentration is stated has that share of what the rest of the mixture measures
+        # (the same cancellation hits a trace when the total is stated by mass or moles). Dilute: the solute itself is
+        # less than a thousandth of what its concentration is stated per - a property of the request, not of the
+        # solver's numbers (an enzyme's are in activity units, the solvent's in moles).
         if concentration is not None:
             for row in range(n):
-                if abs(xs[row]) <= 1e-9 * max(abs(xs)) and a[row][row] != 0 and b[row] == 0:
+                per = Unit.parse_concentration(concentration[row])
+                top = convert_one(solute[row], per[1])
+                if b[row] == 0 and top and abs(a[row][row] + top) <= 1e-3 * abs(top):
                     xs[row] = -sum(a[row][column] * xs[column] for column in range(n + 1) if column != row) \
                         / a[row][row]
         if any(x <= 0 for x in xs):
